@@ -34,7 +34,7 @@ RULE = ('source streams (valid images, zeros, random, crafted parser-breaking co
         'boundary fault (inspector x chunk index x exception type) exhaustively, multiple faults sampled, line-level '
         'failpoints inside the inspectors\' own code (sys.monitoring), natural parser faults. non-trivial = plan with '
         'at least one fault or an expected format; distinct by (stream, schedule, source kind, expected, allowed, plan)')
-REQUIRED_CLAUSES = ['T6-finish-only-at-end-of-stream', 'source-error-then-retry', 'expected_format-given-as-str-subclass', 'empty-chunk-midstream', 'T1-conservation', 'T2-never-fed-after-raise', 'T3-exactly-once-in-order', 'T4-isolation',
+REQUIRED_CLAUSES = ['under-debug-logging', 'T7-read-size-handed-to-the-source-unchanged', 'T8-failed-inspectors-stay-unfed-when-the-reader-goes-on', 'T6-finish-only-at-end-of-stream', 'source-error-then-retry', 'expected_format-given-as-str-subclass', 'empty-chunk-midstream', 'T1-conservation', 'T2-never-fed-after-raise', 'T3-exactly-once-in-order', 'T4-isolation',
                     'T5-own-exception-propagates', 'T5-mismatch-abort', 'T5-no-read-beyond-abort', 'line-failpoint-fired',
                     'natural-fault-observed']
 ASSUMPTIONS = ['only Exception subclasses are injected (the wrapper does not promise to stop BaseException)',
